@@ -288,6 +288,22 @@ pub mod onion {
 		onion_utils::verif::payloads(path, recipient_onion, cur_block_height, keysend_preimage)
 	}
 
+	/// Serialized hop payloads of `build_onion_payloads` including an optional `invoice_request`
+	/// (async payments): the payload bytes `create_payment_onion` wraps for the same arguments.
+	pub fn payloads_with_invoice_request(
+		path: &Path, recipient_onion: &RecipientOnionFields, cur_block_height: u32,
+		keysend_preimage: &Option<PaymentPreimage>,
+		invoice_request: Option<&crate::offers::invoice_request::InvoiceRequest>,
+	) -> Result<(Vec<Vec<u8>>, u64, u32), APIError> {
+		onion_utils::verif::payloads_with_invoice_request(
+			path,
+			recipient_onion,
+			cur_block_height,
+			keysend_preimage,
+			invoice_request,
+		)
+	}
+
 	/// `build_failure_packet` (what the failing hop sends back): (data, attribution data).
 	pub fn build_failure_packet(
 		shared_secret: &[u8; 32], failure_code: u16, failure_data: &[u8], hold_time: u32,
